@@ -5,3 +5,4 @@ import Lean
 register_simp_attr keepsConst
 register_simp_attr keepsKernel
 register_simp_attr keepsAuth
+register_simp_attr keepsInit
